@@ -39,6 +39,14 @@ func (data MoveStakeData) basicCheck(tx *Transaction, context *state.CheckState)
 		}
 	}
 
+	if !context.Candidates().Exists(data.ToPubKey) {
+		return &Response{
+			Code: code.CandidateNotFound,
+			Log:  "Candidate with such public key (ToPubKey) not found",
+			Info: EncodeError(code.NewCandidateNotFound(data.ToPubKey.String())),
+		}
+	}
+
 	if !context.Coins().Exists(data.Coin) {
 		return &Response{
 			Code: code.CoinNotExists,
